@@ -181,6 +181,15 @@ theorem history_congr (L : Learner σ V) (s₁ s₂ : σ) (pre₁ pre₂ : List 
     (runHistory L s₁ (pre₁ ++ e :: post₁))[pre₁.length]? = (runHistory L s₂ (pre₂ ++ e :: post₂))[pre₂.length]? :=
   history_congr' L s₁ s₂ pre₁ pre₂ e post₁ post₂ h
 
+/-- one `SequentialCB` object applied to several (learner, environment) jobs: in the model the evaluator is nothing but
+its configuration `c` — `evaluate c` takes no evaluator state and returns none — so the k-th outcome is `evaluate c` of
+the k-th job whatever came before (in particular the required keys are recomputed from each job's own learner:
+`required c L.hasScore` inside `evaluate`).  The harness holds the real object to this by reusing one SequentialCB
+across evaluations with different learners and judging every evaluation on its own. -/
+theorem evaluator_stateless (c : Config) (jobs : List (Learner σ V × Option Nat × List (Dict (Fld V R)) × σ)) (k : Nat) :
+    (jobs.map (fun j => evaluate c j.1 j.2.1 j.2.2.1 j.2.2.2))[k]? = (jobs[k]?).map (fun j => evaluate c j.1 j.2.1 j.2.2.1 j.2.2.2) :=
+  evaluator_stateless' c jobs k
+
 /-- the documented IPS transform with exact rationals: `reward/probability` at the logged action, `0` elsewhere, for
 every non-zero probability however small -/
 theorem ips_reward_spec (v : View V R) (a : Option V) (r p : Rat) (hr : v.offRwd = some r) (hp : v.offPr = some p) (hp0 : p ≠ 0) :
